@@ -506,6 +506,8 @@ def named_layer(rep, tier):
         ('alias-once', ({'P': point}, O({'p': R('P')})), ({}, O({'p': point}))),
         ('alias-twice-siblings', ({'P': point}, O({'from': R('P'), 'to': R('P')})), ({}, O({'from': point, 'to': point}))),
         ('alias-renamed', ({'P': point}, O({'from': R('P'), 'to': R('P')})), ({'Q': point}, O({'from': R('Q'), 'to': R('Q')}))),
+        ('alias-named-like-an-Object-prototype-member', ({'toString': point, 'constructor': O({'q': R('toString')})}, O({'p': R('constructor'), 'r': R('toString')})),
+                                                        ({'P': point, 'Q': O({'q': R('P')})}, O({'p': R('Q'), 'r': R('P')}))),
         ('alias-of-alias', ({'P': point, 'PP': R('P')}, O({'p': R('PP')})), ({'P': point}, O({'p': R('P')}))),
         ('alias-in-array-and-tuple', ({'P': point}, {'t': 'tuple', 'prefix': [R('P')], 'rest': R('P')}), ({}, {'t': 'tuple', 'prefix': [point], 'rest': point})),
         ('property-order', ({}, O({'a': S, 'b': N})), ({}, O({'b': N, 'a': S}))),
